@@ -123,7 +123,8 @@ pub enum Action {
 		cltv_delta_adj: i32,
 		/// C04: a sender-side flaw the recipient must refuse. 1: a bit of the payment secret
 		/// flipped, 2: the secret of the previous payment to this recipient, 3: less than the
-		/// amount the recipient registered, 4: the onion announces a larger total than is sent
+		/// amount the recipient registered, 4: the onion announces a larger total than is sent,
+		/// 5: the payment secret (registered with a custom final CLTV delta) expired hours ago
 		#[serde(default)]
 		flaw: u8,
 	},
@@ -1904,7 +1905,10 @@ impl World {
 			0 => None,
 			_ => Some(total),
 		};
-		let secret = match catch(|| mr.create_inbound_payment_for_hash(hash, registered_min, 7200, None, None)) {
+		// flaw 5: the payment secret expires (custom final CLTV delta, short expiry) hours before the
+		// sender gets round to paying
+		let (expiry_secs, custom_cltv) = if flaw == 5 { (600u32, Some(43 + (idx as u16 % 20))) } else { (7200u32, None) };
+		let secret = match catch(|| mr.create_inbound_payment_for_hash(hash, registered_min, expiry_secs, custom_cltv, None)) {
 			Ok(Ok((s, _))) => s,
 			Ok(Err(())) => {
 				self.harness_error("create_inbound_payment_for_hash failed".into());
@@ -1955,6 +1959,15 @@ impl World {
 		// the route is given, not searched for: no fee budget applies
 		route_params.max_total_routing_fee_msat = None;
 		let route = Route { paths: route_paths, route_params };
+		if flaw == 5 {
+			// three hours pass (block timestamps are the library's clock for secret expiry)
+			self.chain.time += 3 * 3600;
+			self.clock += 3 * 3600;
+			self.do_mine(1);
+			for x in 0..self.nodes.len() {
+				self.do_sync(x, 255);
+			}
+		}
 		let genuine_secret = secret;
 		let mut secret = secret;
 		let mut onion_total = total;
@@ -2055,6 +2068,7 @@ impl World {
 					1 => "secret_bit_flipped",
 					2 => "secret_of_another_payment",
 					3 => "below_registered_amount",
+					5 => "secret_expired_hours_ago",
 					_ => "onion_total_above_parts_sent",
 				}
 			));
